@@ -196,7 +196,7 @@ class Interp:
     def model_says(self, t):
         """truth value of t under the cached model of assumptions + pc, or None"""
         m = self.cur_model
-        if m is None or self.cur_model_key != (len(self.assumptions), len(self.pc)):
+        if m is None or self.cur_model_key != (len(self.assumptions), tuple(x.get_id() for x in self.pc)):
             return None
         v = m.eval(t, model_completion=True)
         if z3.is_true(v):
@@ -225,6 +225,7 @@ class Interp:
         if not isinstance(cond, SBool):
             return self.truthy(cond)
         t = cond.t
+        set_key = False
         if self.pos < len(self.decisions):
             d = self.decisions[self.pos][0]
             if not isinstance(d, bool):
@@ -248,9 +249,11 @@ class Interp:
             d = can_t
             self.decisions.append((d, can_t and can_f))
             self.cur_model = mt if d else mf
-            self.cur_model_key = (len(self.assumptions), len(self.pc) + 1)
+            set_key = True
         self.pos += 1
         self.pc.append(t if d else z3.Not(t))
+        if set_key:
+            self.cur_model_key = (len(self.assumptions), tuple(x.get_id() for x in self.pc))
         return d
 
     def truthy(self, v):
@@ -949,7 +952,7 @@ class Interp:
         if hit is not None:
             return hit[0]
         v = None
-        m = self.cur_model if self.cur_model_key == (len(self.assumptions), len(self.pc)) else None
+        m = self.cur_model if self.cur_model_key == (len(self.assumptions), tuple(x.get_id() for x in self.pc)) else None
         if m is None:
             self.nqueries += 1
             m = self.qcheck()[1]
